@@ -13,37 +13,37 @@ BASELINE = ("cd /repo && GOFLAGS=-mod=mod GOPROXY=off GOSUMDB=off GOTOOLCHAIN=lo
 # id -> (category, technique, level text, level note, design ref)
 P = {
  "C01": ("model_checking",
-         "TLA+ ProgressStats spec: TLC exhaustive interleavings + model-generated schedules replayed on real progress.Stats through yield hooks + whole-run traces validated by TLC",
+         "TLA+ ProgressStats (TLC exhaustive + 2 mutant configs refuted) ; every yield-point schedule of recorders/snapshot/totals executed on the real progress.Stats+run.Result (cooperative scheduler, DFS) and validated by TLC (Trace_ProgressStats) ; whole Run.Do traces validated against F1Run (C01 clauses)",
          "All interleavings of recorders and collectors are model-checked at atomic-operation grain for small bounds; TLC-generated schedules (including the forbidden lost-update ones of the read-then-reset mutant configuration) are forced onto the real progress.Stats via the ps.* yield hooks, and whole Run.Do traces in every trigger mode are validated against the F1Run conservation invariants.",
          "Go atomics are sequentially consistent; cooperative schedules explore interleavings at hook grain; whole runs observe through the scenario function, Result and a private Prometheus registry.",
          "DESIGN.md §6 C01"),
  "C02": ("model_checking",
-         "TLA+ TriggerPool/JobCounter spec: TLC exhaustive + TLC-simulated behaviours replayed on the real TriggerPool under a cooperative scheduler (yield hooks) + recorded schedules validated by TLC",
+         "TLA+ TriggerPool (TLC exhaustive, liveness, mutant refuted) ; cooperative schedules of the real TriggerPool validated arrival-by-arrival against TriggerPool.tla's own actions (Trace_TriggerPool) and against F1Run's ledger clauses ; free-running tick-storm stress and whole-run traces",
          "Every interleaving of ticker, workers, stop goroutine and canceller is model-checked with a per-tick ledger; behaviours chosen by TLC are executed step by step on the real pool with state compared after each action, and randomly scheduled real executions are validated against the spec.",
          "Cond/atomic/context semantics are modelled; the cond-wait condition (two loads) is one step at hook grain; LateTick deviation named in the spec.",
          "DESIGN.md §6 C02"),
  "C03": ("model_checking",
-         "TLA+ TriggerPool/ContinuousPool spec (atomic NextIteration): TLC exhaustive + whole-run traces in all modes validated by TLC (F1Run)",
+         "TLA+ TriggerPool/ContinuousPool (TLC exhaustive incl. liveness ExactlyN) ; whole Run.Do traces (limits x concurrency x modes, contention runs with 32 busy workers, file-mode stage boundaries) validated by TLC against F1Run (C03 clauses)",
          "Ceiling, uniqueness and gaplessness are invariants of the pool specs checked exhaustively; ids observed by the scenario function in real runs over modes x limits x concurrency are validated event by event.",
          "Free-running runs observe ids inside the scenario function; 'exactly N' only asserted when the run ended by the limit.",
          "DESIGN.md §6 C03"),
  "C04": ("model_checking",
-         "TLA+ pool specs (in-flight per worker, handle identity): TLC exhaustive incl. liveness AllWorkersUsable + whole-run traces validated by TLC (F1Run) + rendezvous scenario",
+         "TLA+ TriggerPool/ContinuousPool (TLC exhaustive incl. liveness AllWorkersBusy) ; whole-run traces (every start/end with handle) + rendezvous runs + cooperative idle-with-pending clause + free-running all-workers-usable stress, validated by TLC against F1Run (C04 clauses)",
          "Upper bound and handle exclusivity are invariants checked on every event of real runs; the lower bound is decided by a rendezvous scenario that completes only if all workers execute simultaneously.",
          "Harness in-flight set is a lower bound of the true one (sound for the upper-bound check).",
          "DESIGN.md §6 C04"),
  "C05": ("model_checking",
-         "TLA+ RunLifecycle/RateRunner/GoRWMutex specs: TLC exhaustive incl. liveness + negative replay of the mutant counterexample on real Run.Do via hooks + whole-run traces validated by TLC",
+         "TLA+ RunLifecycle (RWMutex wedge), RateRunner, pool Termination (TLC exhaustive + liveness, 2 mutants refuted) ; whole Run.Do traces x endings with watchdog and goroutine dump, negative replays (progress wedge, slow stop goroutine) validated by TLC against F1Run (C05 clauses)",
          "Termination and quiescence for every ending are model-checked with Go's writer-preferring RWMutex; the forbidden late-progress-tick behaviour is attempted on the real Run.Do; whole runs over modes x endings are validated for deadlines, quiescence and goroutine leaks.",
          "Wall-clock clauses are one-sided with >= 1 s slack; leaks reported only for goroutines with f1 frames.",
          "DESIGN.md §6 C05"),
  "C06": ("model_checking",
-         "TLA+ Lifecycle spec as executable oracle: TLC enumerates scenario programs with the required event log; each is run on real testing.T/ActiveScenario/Run.Do and compared; random programs in real runs validated by TLC",
+         "TLA+ Lifecycle as executable oracle: TLC enumerates/simulates programs with the required event log; each replayed on the real Run.Do and compared ; whole-run traces validated against F1Run (C06 clauses)",
          "The lifecycle (setup once, LIFO cleanups exactly once, per-cleanup recovery, teardown last, failure routing) is a state machine whose behaviours TLC enumerates for all small programs; the real code must produce exactly the specified event log.",
          "Cleanups registered from inside cleanups and failures raised by goroutines outliving their body are outside the statement and not generated.",
          "DESIGN.md §6 C06"),
  "C07": ("model_checking",
-         "TLA+ Lifecycle spec (outcome classification, clean start, worker survival): TLC-enumerated programs replayed on real code + planned-outcome whole runs validated by TLC",
+         "TLA+ Lifecycle: TLC-generated programs (fail/failnow/panic kinds rotated over 19 concrete ways) replayed on the real Run.Do, body events and outcome counts compared ; F1Run clean-start clause on whole runs",
          "Every body behaviour kind (Fail/FailNow/Error/Fatal/assertions/panic values/runtime errors) in every position is executed on the real T and ActiveScenario and compared with the spec's outcome; multi-worker runs with planned outcomes are validated per iteration.",
          "Process death is observed by running in a child process.",
          "DESIGN.md §6 C07"),
@@ -53,7 +53,7 @@ P = {
          "TLC integers exact below 2^31; CLI rows rely on the harness scenario failing exactly the planned iterations.",
          "DESIGN.md §6 C08"),
  "C09": ("model_checking",
-         "TLA+ GoTicker + trigger-loop spec: TLC exhaustive (cadence bound, value unchanged) + timestamped Eval/publish traces of real rate-mode runs validated by TLC",
+         "TLA+ GoTicker (TLC exhaustive: cadence) ; whole rate-mode Run.Do traces: every evaluation (hook iw.eval) and published tick (hook tp.send.locked) validated by TLC against F1Run (C09 clauses)",
          "The ticker (1-slot channel, drops) and the evaluate-then-publish loop are model-checked; real runs log every rate evaluation (monotonic time, value) and every published tick size (hook), and TLC checks the cadence bound and value equality on each trace.",
          "Upper bound only; uses the code's own monotonic call times.",
          "DESIGN.md §6 C09"),
@@ -88,7 +88,7 @@ P = {
          "Environment sampled at trigger events, not inside iterations.",
          "DESIGN.md §6 C15"),
  "C16": ("model_checking",
-         "TLA+ Metrics spec: TLC exhaustive over consecutive runs + Gather() records of real runs on a private registry validated by TLC",
+         "TLA+ Metrics (TLC exhaustive over consecutive runs) ; Registry.Gather() of 1-3 consecutive real runs with generated static labels validated by TLC against F1Run (C16 clauses)",
          "Reset/record/gather is a small state machine; real consecutive Run.Do runs with generated label maps are gathered and TLC checks counts per label against the run's own Result and label pairing.",
          "Observes through prometheus Registry.Gather().",
          "DESIGN.md §6 C16"),
@@ -98,12 +98,12 @@ P = {
          "Upper-bound timing clauses only against sleeps >= 200 ms with 100 ms slack; inside the slack = inconclusive.",
          "DESIGN.md §6 C17"),
  "C18": ("model_checking",
-         "TLA+ RateRunner/GoTicker spec: TLC exhaustive incl. mutant StopWaits=FALSE + negative replay on the real raterun.Runner through hooks + random op-sequence traces validated by TLC",
+         "TLA+ RateRunner (TLC exhaustive + liveness, mutant refuted) ; negative replay (park a due tick through hook rr.tick, call Stop) and random op sequences on the real raterun.Runner validated by TLC (Trace_RateRunner)",
          "Runner lifecycle is model-checked with Restart/Stop/Cancel at every point; the forbidden 'function runs after Stop returned' behaviour is attempted on the real Runner by parking its goroutine on a due tick; random operation sequences are validated against the spec.",
          "time.Ticker modelled (1-slot channel).",
          "DESIGN.md §6 C18"),
  "C19": ("other",
-         "TLA+ Report relations evaluated by TLC on rendered outputs of the real views (both colour modes) and structured logs",
+         "TLA+ Report relations evaluated by TLC on rendered summaries/progress lines (text template + slog JSON) of the real views and Result; F1Run summary clause on whole runs",
          "Generated result/progress data are rendered by the real templates and slog handlers; the numbers are extracted and TLC checks the relations (counts equal, banner = verdict, percentages are the share of all iterations). There is no interesting state space, hence level 'other'.",
          "Scrapers are ordinary Go code; percentages checked with counts < 2^20.",
          "DESIGN.md §6 C19"),
